@@ -40,6 +40,7 @@
 #include <cfloat>
 #include <algorithm>
 #include <igris/util/printf_impl.h>
+#include <gmpxx.h>
 
 using namespace hv;
 typedef std::vector<uint8_t> bytes;
@@ -445,6 +446,95 @@ static bool shape(const Dir &d, bool neg, const std::string &out)
 }
 } // namespace iso
 
+// ---------------------------------------------------------------- rounding ties (round 3)
+// The property leaves the direction of an exact tie open.  Both sides of the correspondence apply the same
+// canonicalisation to their own text (Lean: IgrisModel/C13/Tie.lean with Rat; here: GMP rationals - exact
+// arithmetic, no floating point, no code of the model): with u = unit of the last digit demanded by the
+// directive (from the exact decimal exponent of x), V = value of the text, the text is in the TIE CLASS iff
+// x / 2^46 <= u / 4 and | |V - x| - u/2 | <= x / 2^46; in the class the result field is "T <lower neighbour as num/den>",
+// outside it the text is compared byte for byte as before.  The oracle judges the real text in both cases.
+namespace tie
+{
+static mpq_class pow10q(long e)
+{
+    mpz_class p;
+    mpz_ui_pow_ui(p.get_mpz_t(), 10, (unsigned long)labs(e));
+    return e >= 0 ? mpq_class(p) : mpq_class(mpz_class(1), p);
+}
+static long ilog10q(const mpq_class &q) // floor(log10 q), q > 0, exact
+{
+    long e = (long)floor(log10(q.get_d() > 0 ? q.get_d() : 5e-324));
+    while (pow10q(e) > q) e--;
+    while (pow10q(e + 1) <= q) e++;
+    return e;
+}
+static mpq_class text_value(const std::string &t)
+{
+    mpz_class n = 0, ex = 0;
+    long fd = 0;
+    bool dot = false, in_exp = false, exp_neg = false;
+    for (char c : t)
+    {
+        bool dg = c >= '0' && c <= '9';
+        if (in_exp)
+        {
+            if (c == '-') exp_neg = true;
+            else if (dg) ex = ex * 10 + (c - '0');
+        }
+        else if (dg) { n = n * 10 + (c - '0'); if (dot) fd++; }
+        else if (c == '.') dot = true;
+        else if (c == 'e' || c == 'E') in_exp = true;
+    }
+    long e = ex.fits_slong_p() ? ex.get_si() : 1000000;
+    if (e > 1000000) e = 1000000;
+    return mpq_class(n) * pow10q((exp_neg ? -e : e) - fd);
+}
+// true: `res` = canonical result field
+static bool canon(const Dir &d, double xd, const std::string &body, std::string &res)
+{
+    if (!std::isfinite(xd) || xd == 0) return false;
+    long P = d.has_prec ? d.prec : 6;
+    if (d.has_prec && d.prec > 5000) return false;
+    mpq_class x(fabs(xd));
+    char c = (char)tolower(d.conv);
+    mpq_class u = c == 'f' ? pow10q(-P) : c == 'e' ? pow10q(ilog10q(x) - P) : pow10q(ilog10q(x) - (P == 0 ? 1 : P) + 1);
+    mpq_class v = text_value(body);
+    mpq_class w1 = x / mpq_class(mpz_class(1) << 46), w2 = u / 4;
+    mpq_class dl = abs(abs(v - x) - u / 2);
+    if (!(w1 <= w2 && dl <= w1)) return false;
+    mpq_class lo = v > x ? mpq_class(v - u) : v;
+    lo.canonicalize();
+    res = "T " + lo.get_num().get_str() + "/" + lo.get_den().get_str();
+    return true;
+}
+// The tie as the engine itself sees it: the scaling steps of print_f (normalisation by ten, fraction digits)
+// run on the host FPU in double, then "is the fractional part of the scaled value exactly 1/2".  Needed where the
+// unit of the last digit is finer than the accumulated error of those steps: there the tie is not a tie of the
+// argument and cannot be recognised from x and the text.  Only decides which result fields are relaxed to "Tf";
+// the oracle below judges the real text in every case.
+static bool seen(const Dir &d, double xd)
+{
+    if (!std::isfinite(xd)) return false;
+    volatile double r = fabs(xd), ip, fp, ep = 0;
+    char c = (char)tolower(d.conv);
+    bool with_exp = c == 'e', is_short = c == 'g';
+    long precision = d.has_prec ? (is_short ? std::max(d.prec, 1L) : d.prec) : 6;
+    double t;
+    fp = modf(r, &t); ip = t;
+    if (with_exp || is_short)
+    {
+        while (ip >= 10) { fp = modf((ip + fp) / 10, &t); ip = t; ep = ep + 1.0; }
+        if (fp != 0.0)
+            while (ip == 0.0) { fp = modf((ip + fp) * 10, &t); ip = t; ep = ep - 1.0; }
+        if (ep < -4 || ep >= precision) with_exp = true;
+    }
+    if (!with_exp) { fp = modf(r, &t); ip = t; }
+    precision -= is_short ? (with_exp ? 1 : (long)ep + 1) : 0;
+    for (long sc = 0; sc < precision && sc < 340 && fmod(fp, 1.0) != 0.0; ++sc) fp = fp * 10;
+    return fmod(fp, 1.0) == 0.5;
+}
+} // namespace tie
+
 // unit of the last digit the directive asks for, given what was printed
 static long double unit_of(const Dir &d, const Shape &S, double x)
 {
@@ -561,6 +651,11 @@ static void run_pf(const std::vector<std::string> &w, out &o, bool strict, bool 
     {
         if (outs != refs) o.fail("non-finite argument: igris <" + outs + "> ISO/glibc <" + refs + ">");
         return;
+    }
+    {
+        std::string canon;
+        if (tie::canon(d, x, body, canon)) { o.result = canon; o.tag("tie-class"); }
+        else if (tie::seen(d, x)) { o.result = "Tf"; o.tag("tie-seen-fine"); }
     }
     Shape S = check_shape(d, body, x);
     if (!S.ok) { o.fail("shape: " + S.why + " igris <" + outs + "> glibc <" + refs + ">"); return; }
